@@ -55,7 +55,7 @@ func tabulateRange(c *core.Ctx, f *ssa.Function, x ssa.Value, extra fde.Env) (fd
 
 // R07.1
 var ruleTextPredicate = &core.Rule{ID: "R07.1", Min: 256,
-	Doc: "the text detector's per-byte rejection predicate, tabulated over 0..255 from its scanning loop, equals the WHATWG binary-data-byte table",
+	Doc: "the text detector's per-byte rejection predicate, tabulated over 0..255 from its scanning loop, equals the WHATWG binary-data-byte table (the scan may be bytes.IndexAny / ContainsAny over a constant set of ASCII characters: its set is the table)",
 	Run: func(c *core.Ctx, s *core.Sink) {
 		_, f := textDetector(c)
 		if call, set, _ := textSearchForm(f); call != nil {
@@ -504,7 +504,7 @@ func dominatedByCallEdge(blk *ssa.BasicBlock, call *ssa.Call, want bool) bool {
 
 // R11.2 + R11.3
 var rulePlainReturns = &core.Rule{ID: "R11.3", Min: 4,
-	Doc: "plain sniffer: the BOM name is returned before anything else; every return of utf-8 is control dependent on utf8.Valid(...) or on the ASCII test being true; every other non-empty return comes from the Latin fallback",
+	Doc: "plain sniffer: the BOM name is returned before anything else; every return of utf-8 is control dependent on utf8.Valid(...) or on the ASCII test being true (composed conditions are decided by finite evaluation with both tests false); every other non-empty return comes from the Latin fallback; a helper of the sniffer answers utf-8 only under one of the two tests, or is a single-pass byte-class classifier whose flag machine (flags x 256 bytes) answers utf-8 never after a byte >= 0x80 and always for ASCII text",
 	Run: func(c *core.Ctx, s *core.Sink) {
 		cm := getCharset(c)
 		cm.needBOM()
